@@ -45,6 +45,16 @@ func VerifGCRestart() {
 	initGroupChain()
 }
 
+// VerifGCReload forgets the in-memory mirror and runs initGroupChain() again without closing the shared
+// LevelDB instance (only the joined-groups DB, which initGroupChain opens itself, is closed first).
+func VerifGCReload() {
+	if groupChainImpl != nil {
+		groupChainImpl.joinedGroups.Close()
+		groupChainImpl = nil
+	}
+	initGroupChain()
+}
+
 // VerifGCRemoveLast calls the unexported remove on the current last group, under the chain lock
 // (the way removeFromCommonAncestor holds it).
 func VerifGCRemoveLast() bool {
